@@ -1,4 +1,14 @@
 import PoryProofs.ErrLoc
+/-
+Located parser errors, part 2: the functions below the statement level that deal with scope modifiers, the
+poryswitch header, `format()`, text values, movement / mart lists and command statements.
+
+Every specification has the form
+  `Inv T E k s → … → tri (El T E) (f …) s (Post T E k R)`
+(from a state whose window is `T.drop k`: a failing run fails with a located error, a successful run ends
+with window `T.drop k'`, `k ≤ k'`, and a result satisfying `R`).  Start tokens passed as arguments are
+written `T.getD i E`; `i ≤ k` is only required where the token is the start of a range error.
+-/
 namespace Pory.Parser
 open Pory
 
@@ -39,7 +49,6 @@ theorem sp_formatNamedParams : ∀ (n : Nat) (fp : FmtParams) (k : Nat) (s : PSt
     tgo [ih, fpok_mk T E]
 
 
-set_option maxHeartbeats 1000000 in
 theorem sp_parseFormatStringOperator (env : Env) (n : Nat) (k : Nat) (s : PState) (hi : Inv T E k s) :
     tri (El T E) (parseFormatStringOperator env n) s (Post T E k (fun r => Tin T E r.1)) := by
   unfold parseFormatStringOperator
